@@ -17,10 +17,10 @@ EXPLANATION = (
     "by a raw String; (R4) keyword / built-in name recognition goes through cmp_str or "
     "eq_ignore_ascii_case; (R5) exactly the CR[LF] and LF line endings are recognised; (R6) the "
     "lexer never matches an ASCII letter constant exactly; (R7) two characters of program text are "
-    "never compared (order or equality) without case folding; (R10) every parser function that recognises the end of a line as the end of something recognises a colon too, or is tabled with the reason a colon is no alternative there; (R11) no token rule of the lexer raises a fatal error, because the lexer also tokenises comment and string text; (R12) every use of the one-token end-of-statement lookahead skips optional blanks first; (R13) the guard of the CR LF look-ahead in create_row_col_view is exactly `the next character exists` (not stronger).")
+    "never compared (order or equality) without case folding; (R10) every parser function that recognises the end of a line as the end of something recognises a colon too, or is tabled with the reason a colon is no alternative there; (R11) no token rule of the lexer raises a fatal error, because the lexer also tokenises comment and string text; (R12) every use of the one-token end-of-statement lookahead skips optional blanks first; (R13) the guard of the CR LF look-ahead in create_row_col_view is exactly `the next character exists` (not stronger); (R14) the parenthesis-only parser is used by the list of primary expressions only, so an operand that starts with `(` directly after a keyword is still a whole expression.")
 NOT_DECIDED = [
     "equality of parse trees under layout transformations (blanks, comments, colon vs newline)",
-    "row counting in create_row_col_view beyond presence of the CR / LF guards",
+    "row counting in create_row_col_view beyond the CR / LF guards and the tightness of the CR LF look-ahead guard (R13)",
 ]
 
 
@@ -547,6 +547,45 @@ def r13_lookahead_guard_is_tight(ctx, rule="C09.R13"):
     ctx.require(rule, 1)
 
 
+PRIMARY_ONLY = {
+    # the parser of a parenthesised primary `( expr )` and who may use it: only the list of primary
+    # expressions - everywhere else an expression that STARTS with a parenthesis goes on after it
+    "expr::parenthesis::parser": ("expr::binary_expression::non_bin_expr",),
+}
+
+
+def r14_parenthesis_is_only_a_primary(ctx, rule="C09.R14"):
+    """`spacing never changes meaning`: after a keyword (NOT, AND, MOD, WHILE, TO, IF ...) an operand
+    may follow without a blank when it starts with `(`.  The operand is then still a whole
+    expression - `NOT(1)+1` is `NOT (1)+1`.  A position that offers the parenthesis-only parser as
+    an alternative to `blank + expression` stops at the closing parenthesis: with the blank the rest
+    belongs to the operand, without it the rest is left over (a different grouping or a syntax
+    error).  Who-may-call rule: the parenthesis-only parser is used by the list of primaries only."""
+    prog = ctx.prog
+    n = 0
+    for target, allowed in PRIMARY_ONLY.items():
+        tf_ = [f for f in prog.fns.values() if f.crate == "rusty_parser" and f.path.split("::", 1)[1] == target]
+        if len(tf_) != 1:
+            raise CheckError("%s: anchor %s: %d matches" % (rule, target, len(tf_)))
+        callers = set()
+        for f in prog.fns.values():
+            if f.crate != "rusty_parser":
+                continue
+            if any(mir.callee_of(t) == tf_[0].id for _b, t in f.body.calls()):
+                callers.add((prog.enclosing_fn(f) or f).path.split("::", 1)[1])
+        if not callers:
+            raise CheckError("%s: %s has no caller" % (rule, target))
+        for c in sorted(callers):
+            n += 1
+            ctx.decide(c in allowed, rule, "%s:%s" % (rule, c), tf_[0].loc,
+                       "a list of primary expressions",
+                       "%s uses the parenthesis-only parser where a whole expression is expected: an operand that "
+                       "starts with `(` ends at the matching `)`, so `KEYWORD(a)+b` is not `KEYWORD (a)+b` "
+                       "(NOT(1)+1 = -1 but NOT (1)+1 = -3; `1 AND(2)+1`, `WHILE(x)+1 < 3`, `IF(x)-1 = 1 THEN` are "
+                       "syntax errors)" % c)
+    ctx.require(rule, 1)
+
+
 def run(ctx):
     common.install(ctx)
     r1_folding_pair(ctx)
@@ -564,3 +603,4 @@ def run(ctx):
     r11_lexer_is_total(ctx)
     r12_statement_end_lookahead_skips_blanks(ctx)
     r13_lookahead_guard_is_tight(ctx)
+    r14_parenthesis_is_only_a_primary(ctx)
